@@ -1759,8 +1759,9 @@ func (d *Data) addLabelElements(v dvid.VersionID, labelE LabelElements, bcoord d
 }
 
 // stores synaptic elements arranged by label, replacing any
-// elements at same position.
-func (d *Data) storeLabelElements(ctx *datastore.VersionedCtx, batch storage.Batch, elems Elements) error {
+// elements at same position.  If notify is false, subscribers are not told of the
+// changes (used when label lists are only rebuilt from unchanged block elements).
+func (d *Data) storeLabelElements(ctx *datastore.VersionedCtx, batch storage.Batch, elems Elements, notify bool) error {
 	toAdd, err := d.getLabelElements(ctx.VersionID(), elems)
 	if err != nil {
 		return err
@@ -1804,6 +1805,9 @@ func (d *Data) storeLabelElements(ctx *datastore.VersionedCtx, batch storage.Bat
 	}
 
 	// Notify any subscribers of label annotation changes.
+	if !notify {
+		return nil
+	}
 	evt := datastore.SyncEvent{Data: d.DataUUID(), Event: ModifyElementsEvent}
 	msg := datastore.SyncMessage{Event: ModifyElementsEvent, Version: ctx.VersionID(), Delta: delta}
 	if err := datastore.NotifySubscribers(evt, msg); err != nil {
@@ -2330,7 +2334,7 @@ func (d *Data) StoreElements(ctx *datastore.VersionedCtx, r io.Reader, kafkaOff 
 	}
 
 	// Store new elements among label denormalizations
-	if err := d.storeLabelElements(ctx, batch, elems); err != nil {
+	if err := d.storeLabelElements(ctx, batch, elems, true); err != nil {
 		return err
 	}
 
